@@ -44,6 +44,7 @@ class Ctx:
         self.explanation = ""
         self.rules = {}            # rule id -> description
         self.extra = {}
+        self._seen = set()
 
     # ---- recording
     def rule(self, rid, text):
@@ -52,6 +53,9 @@ class Ctx:
     def ob(self, rule, key, ok, detail="", where=None, sample=None, replay=None):
         """one obligation = one rule instance. key: stable, no line numbers."""
         o = {"rule": rule, "key": "%s:%s" % (rule, key), "ok": bool(ok), "detail": detail}
+        if (o["key"], o["ok"]) in self._seen:
+            return ok
+        self._seen.add((o["key"], o["ok"]))
         if where:
             o["where"] = where
         if replay is not None:
